@@ -16,7 +16,7 @@ import (
 // siblings: the box then reaches a consumer that does not expect it.
 func c01AtomicInlines(c *core.Check) {
 	p := c.Prog
-	r := c.Rule("R15", "the atomic inline containers are treated alike: in html/layout and html/document every disjunction of box-class tests on one box that names InlineBlockT together with InlineFlexT or InlineGridT names all three (a class left out of the stacking dispatch reaches the panicking default of drawInlineLevel)", 3)
+	r := c.Rule("R15", "the atomic inline containers are treated alike: in html/layout and html/document every disjunction of box-class tests on one box that names InlineBlockT together with InlineFlexT or InlineGridT names all three (a class left out of the stacking dispatch reaches the panicking default of drawInlineLevel); in html/boxes every disjunction of exact box-type comparisons that accepts TableT accepts InlineTableT", 6)
 	n := 0
 	for _, rel := range []string{"html/layout", "html/document"} {
 		pk := p.ByPath[rel]
@@ -94,5 +94,52 @@ func c01AtomicInlines(c *core.Check) {
 	}
 	if n == 0 {
 		r.Anchor("disjunctions of InlineBlockT / InlineFlexT / InlineGridT tests")
+	}
+	// the same for exact-type comparisons of box types: an inline table is a table wherever a table is a proper parent
+	m := 0
+	if pk := p.ByPath["html/boxes"]; pk != nil {
+		for _, f := range pk.Syntax {
+			if strings.HasSuffix(p.Fset.Position(f.Pos()).Filename, "_test.go") {
+				continue
+			}
+			var fnName string
+			ast.Inspect(f, func(nd ast.Node) bool {
+				if fd, ok := nd.(*ast.FuncDecl); ok {
+					fnName = fd.Name.Name
+				}
+				be, ok := nd.(*ast.BinaryExpr)
+				if !ok || be.Op != token.LOR {
+					return true
+				}
+				var leaves []ast.Expr
+				var flat func(e ast.Expr)
+				flat = func(e ast.Expr) {
+					e = ast.Unparen(e)
+					if b, ok := e.(*ast.BinaryExpr); ok && b.Op == token.LOR {
+						flat(b.X)
+						flat(b.Y)
+						return
+					}
+					leaves = append(leaves, e)
+				}
+				flat(be)
+				set := map[string]bool{}
+				for _, l := range leaves {
+					if eq, ok := l.(*ast.BinaryExpr); ok && eq.Op == token.EQL {
+						if id, ok := eq.Y.(*ast.Ident); ok {
+							set[id.Name] = true
+						}
+					}
+				}
+				if set["TableT"] {
+					m++
+					r.Cond(set["InlineTableT"], "html/boxes."+fnName+" | "+p.NodeText(be), p.Pos(be.Pos()), "InlineTableT beside TableT", "the comparison accepts TableT but not InlineTableT: a table-internal box inside an inline table is wrapped once more and wrapTable meets a box it has no list for (nil pointer dereference)")
+				}
+				return false
+			})
+		}
+	}
+	if m == 0 {
+		r.Anchor("html/boxes: equality tests naming TableT")
 	}
 }
